@@ -245,6 +245,8 @@ def run(p, report, tier):
                 "scatter into an array lives in that array's index space (XROW rows of X, CAND positions in the "
                 "candidate list, MASK(m) positions inside a boolean-mask sub-array); only pairs where both spaces are "
                 "known are judged", floor=4)
+    report.rule("R8.3", "positions selected over a pool that was shrunk by np.delete reach the returned indices only "
+                "through a translating subscript T[positions] (SUB -> CAND), never directly", floor=2)
     report.rule("R8.2", "after _transform_candidates the raw `candidates` parameter is read only to choose between "
                 "equivalent index sets (None / ndim tests, length), never as an operand of a numerical computation", floor=25)
     funcs = c01.pool_functions(p)
@@ -324,8 +326,116 @@ def run(p, report, tier):
                    f"{f.file}:{line}", not bad,
                    detail="only representation tests" if not bad else
                    "raw candidates read at line(s) " + ", ".join(str(b.lineno) for b in bad))
+    n83 = check_shrinking_pool(p, report, funcs, "R8.3")
+    report.analysed["shrinking_pool_selections"] = n83
     report.assumptions += ["restriction invariance and permutation equivariance of the numbers are not decided",
                            "index spaces are inferred only from the idioms listed in the checker; unknown never fires"]
+
+
+def check_shrinking_pool(p, report, funcs, rule_id):
+    """positions selected over a pool shrunk by np.delete must be translated"""
+    from ..astutil import FuncTree, dominates
+    n83 = 0
+    for f in funcs:
+        fnode = f.node
+        shrinks = []
+        for n in ast.walk(fnode):
+            if isinstance(n, ast.Assign) and isinstance(n.value, ast.Call) and c01.callname(n.value) == "delete" \
+                    and n.value.args and len(n.targets) == 1 and isinstance(n.targets[0], ast.Name):
+                shrinks.append((n, n.targets[0].id))
+        if not shrinks:
+            continue
+        ff = c01.FnFacts(f)
+        tree = FuncTree(fnode)
+        edges = dep_edges(fnode.body)
+        for k in list(edges):
+            edges[k] = {x for x in edges[k] if x in ff.locs}
+        # value edges WITHOUT index flows (T[r] does not pass r's value on)
+        direct = {}
+        for n in ast.walk(fnode):
+            if isinstance(n, ast.Assign):
+                srcs = direct_sources(n.value, ff.locs)
+                for t in n.targets:
+                    for e in (t.elts if isinstance(t, (ast.Tuple, ast.List)) else [t]):
+                        b = base_name(e)
+                        if b:
+                            direct.setdefault(b, set()).update(srcs)
+        ret_seeds = set()
+        for _, e in ff.rets:
+            ret_seeds |= direct_sources(e, ff.locs)
+        ret_direct = closure(ret_seeds, direct)
+        shrunk_names = {nm for _, nm in shrinks}
+        for n in ast.walk(fnode):
+            if not isinstance(n, ast.Assign) or not isinstance(n.value, (ast.Call, ast.Subscript)):
+                continue
+            call = n.value
+            while isinstance(call, ast.Subscript):
+                call = call.value
+            if not isinstance(call, ast.Call):
+                continue
+            is_sel = c01.is_selection_call(call)
+            if not is_sel:
+                r = p.resolve_expr(f.module, call.func) if isinstance(call.func, (ast.Name, ast.Attribute)) else None
+                if not (r is not None and r[0] == "func" and c01.returned_index_exprs(r[1].node)
+                        and any(isinstance(x, ast.Call) and c01.is_selection_call(x) for x in ast.walk(r[1].node))):
+                    continue
+            argn = set()
+            for a in list(call.args) + [k.value for k in call.keywords]:
+                argn |= names_in(a)
+            back = closure(argn & ff.locs, edges)
+            used = shrunk_names & back
+            if not used:
+                continue
+            # the selection happens after (or in the same loop as) the shrink
+            after = False
+            for (sst, nm) in shrinks:
+                if nm in used and (dominates(tree, sst, n) or (tree.enclosing_loops(sst) and
+                                   set(map(id, tree.enclosing_loops(sst))) & set(map(id, tree.enclosing_loops(n))))):
+                    after = True
+            if not after:
+                continue
+            res = set()
+            t0 = n.targets[0]
+            if isinstance(t0, (ast.Tuple, ast.List)):
+                if isinstance(t0.elts[0], ast.Name):
+                    res.add(t0.elts[0].id)   # index result is the first element
+            elif isinstance(t0, ast.Name):
+                res.add(t0.id)
+            if not res:
+                continue
+            n83 += 1
+            leak = res & ret_direct
+            report.add(rule_id, f.qual, f"positions `{sorted(res)[0]}` selected over the shrunk pool {sorted(used)}",
+                       f"{f.file}:{n.lineno}", not leak,
+                       detail="reach the returned indices only through a translating subscript T[positions]" if not leak else
+                       "positions relative to the shrunk pool flow untranslated into the returned indices")
+    return n83
+
+
+def direct_sources(e, locs):
+    """like c01.value_sources but a subscript passes on only the value of
+    its base, not of its index (T[r] translates r)."""
+    out = set()
+    if e is None:
+        return out
+    if isinstance(e, ast.Name):
+        if e.id in locs:
+            out.add(e.id)
+    elif isinstance(e, ast.Subscript):
+        out |= direct_sources(e.value, locs)
+    elif isinstance(e, (ast.Tuple, ast.List)):
+        for x in e.elts:
+            out |= direct_sources(x, locs)
+    elif isinstance(e, ast.Call):
+        if c01.callname(e) in c01.CONVERSIONS:
+            args = e.args[:1] if c01.callname(e) in ("delete", "reshape", "astype") else e.args
+            for a in args:
+                out |= direct_sources(a, locs)
+            if isinstance(e.func, ast.Attribute):
+                out |= direct_sources(e.func.value, locs)
+    elif isinstance(e, ast.IfExp):
+        out |= direct_sources(e.body, locs) | direct_sources(e.orelse, locs)
+    return out
 
 
 def _parent(root, node):
